@@ -794,4 +794,40 @@ def comprehension(run, node, fr, kind):
                 ax = z3.ForAll([kv], z3.Select(vals, kv) == out.t)
                 run.pc.append(ax)
                 return Val(rty, rty.mk(d.ty.has(d.t), vals, d.ty.size(d.t)))
+    if (kind == "dict" and len(node.generators) == 1 and not node.generators[0].ifs and isinstance(node.generators[0].target, ast.Name)
+            and isinstance(node.key, ast.Name) and node.key.id == node.generators[0].target.id):
+        # {x: f(x) for x in S}: keys = the elements of S, value of k = f(k)
+        from .interp import Frame
+        g = node.generators[0]
+        srcv = run.ev(g.iter, fr)
+        if isinstance(srcv, Conc) and srcv.obj in (("emptylist",), ("emptydict",)):
+            return Conc(("emptydict",))
+        if isinstance(srcv, Val) and isinstance(srcv.ty, TSet):
+            kty = srcv.ty.k
+            member = lambda kk: z3.Select(srcv.ty.has(srcv.t), kk)
+            size_fact = lambda R, rty: rty.size(R) == srcv.ty.size(srcv.t)
+        else:
+            sq = iter_to_seq(run, srcv, node)
+            kty = sq.ty.elem
+            member = lambda kk: z3.Contains(sq.t, z3.Unit(kk))
+            size_fact = lambda R, rty: z3.And(rty.size(R) >= 0, rty.size(R) <= z3.Length(sq.t), (rty.size(R) == 0) == (z3.Length(sq.t) == 0))
+        kv = z3.FreshConst(kty.sort(), "ck")
+        f2 = Frame(fr.finfo, parent=fr)
+        f2.vars[g.target.id] = Val(kty, kv)
+        run.spec += 1
+        try:
+            out = run.ev(node.value, f2)
+        finally:
+            run.spec -= 1
+        if not isinstance(out, Val):
+            raise err("dict comprehension value is not a symbolic value")
+        rty = TDict(kty, out.ty, ordered=False)
+        R = rty.fresh("dcomp")
+        for ax in (z3.ForAll([kv], z3.Select(rty.has(R), kv) == member(kv)),
+                   z3.ForAll([kv], z3.Implies(member(kv), z3.Select(rty.val(R), kv) == out.t)),
+                   size_fact(R, rty)):
+            run.pc.append(ax)
+        rv = Val(rty, R)
+        run.wf(rv)
+        return rv
     raise err(f"{kind} comprehension at line {node.lineno}: not supported here (give the function a contract-level stub or use `calls`)")
